@@ -137,3 +137,29 @@ Example C13_while_acc_nonvacuous :
     acc_run_ok_gen isarr [] [] [0%nat] st tr = true /\ acc_run_ok_gen isarr [] [0%nat] [] st tr = false.
 Proof. exact while_acc_nonvacuous. Qed.
 Print Assumptions C13_while_acc_nonvacuous.
+
+(* ---- STATIC class, no run-time premise (coq/C13/Static.v): top-level literal-subscript assignments in bounds and
+   full-extent loops  do i = lb, ub : a(i) = e  over the declared bounds; every copyout array write-only with such a loop *)
+From PV Require Import C13.Static.
+Theorem C13_acc_sound_static : forall isarr b f r st st' tr c,
+  static_safe isarr b r = true -> (forall a, bnd st a = b a) ->
+  exec f r st = Ok st' tr c ->
+  forall junk, exists st'',
+    exec_dev f isarr (cl_of isarr r) junk r st = Ok st'' tr c /\
+    bnd st'' = bnd st' /\ forall l, val st'' l = val st' l.
+Proof. exact acc_sound_static. Qed.
+Print Assumptions C13_acc_sound_static.
+
+Example C13_static_nonvacuous :
+  static_safe arrs b3 r_static = true /\
+  in_clause arrs (accs false r_static) CopyOut = [va] /\ in_clause arrs (accs false r_static) CopyIn = [vb] /\
+  (forall vals a, bnd (st_of vals) a = b3 a) /\
+  exists st' tr, exec 20 r_static (st_of [((vb, [2]), 4); ((va, [3]), 9)]) = Ok st' tr CNormal /\ val st' (va, [2]) = 5.
+Proof. exact static_nonvacuous. Qed.
+Print Assumptions C13_static_nonvacuous.
+
+(* the refuted witnesses of the C13_acc_refuted theorems are outside the static class *)
+Example C13_static_excludes_partial_write :
+  static_safe arrs b3 r_partial = false /\ static_safe arrs b3 r_read = false /\ static_safe arrs b3 r_cond = false.
+Proof. exact static_excludes_partial_write. Qed.
+Print Assumptions C13_static_excludes_partial_write.
